@@ -36,6 +36,7 @@ func (process *Process) SpawnThenTransitionNP(re *RuntimeEnvironment) {
 
 // Entry point for each process transition
 func (process *Process) transitionLoopNP(re *RuntimeEnvironment) {
+	verifPoint(2)
 	re.logProcessf(LOGPROCESSING, process, "Process transitioning: %s\n", process.Body.String())
 
 	// Send heartbeat
@@ -61,6 +62,7 @@ func TransitionBySendingNP(process *Process, toChan chan Message, continuationFu
 		// Split process if needed
 		process.performDUPruleNP(re)
 	} else {
+		verifPoint(5)
 		select {
 		case <-re.ctx.Done():
 			// Handle timeout event
@@ -83,6 +85,7 @@ func TransitionByReceivingNP(process *Process, clientChan chan Message, processM
 		// Split process if needed
 		process.performDUPruleNP(re)
 	} else {
+		verifPoint(6)
 		select {
 		case <-re.ctx.Done():
 			// Received cancellation request, so stop
@@ -575,6 +578,7 @@ func (f *ForwardForm) TransitionNP(process *Process, re *RuntimeEnvironment) {
 	}
 
 	// TransitionAsSpecialForm(process, f.from_c.ControlChannel, forwardRule, controlMessage, re)
+	verifPoint(7)
 	select {
 	case cm := <-process.Providers[0].ControlChannel:
 		// todo check if this should only happen if len(process.OtherProviders) == 0
@@ -674,6 +678,7 @@ func (process *Process) performDUPruleNP(re *RuntimeEnvironment) {
 		re.logProcessf(LOGRULEDETAILS, process, "[DUP] creating new process (%d): %s\n", i, newDuplicatedProcess.String())
 
 		// Need to spawn the new duplicated processes
+		verifPoint(10)
 		newDuplicatedProcess.SpawnThenTransitionNP(re)
 	}
 
